@@ -4,7 +4,7 @@ from checks.storegen import World, NAMES, PLAIN, BLOCK_KINDS, with_hdump
 ID = 'C03'
 THEOREMS = ['Nix.St.find_by_name', 'Nix.St.find_by_id', 'Nix.St.find_by_id_shadowed', 'Nix.St.count_eq_enumeration_length', 'Nix.St.enumeration_eq_by_index', 'Nix.St.nthChild_isSome_iff', 'Nix.St.blkFind_by_name', 'Nix.St.blkFind_by_name_and_id', 'Nix.St.blkFind_by_id', 'Nix.St.createBlock_appends', 'Nix.St.delete_keeps_order', 'Nix.St.unlinkAll_preserves_container', 'Nix.St.createBlock_preserves_container', 'Nix.St.blocks_container_invariant', 'Nix.St.newFile_blocks_container', 'Nix.St.newFile_wt', 'Nix.St.apply_wt', 'Nix.St.run_wt', 'Nix.St.reachable_wt', 'Nix.St.names_unique_per_parent', 'Nix.St.lookup_by_name_finds_the_link', 'Nix.St.children_are_groups', 'Nix.St.properties_are_datasets', 'Nix.St.link_targets_exist', 'Nix.St.links_conform_to_schema', 'Nix.St.WT.block_containers_hold_groups',
             'Nix.St.apply_idStep', 'Nix.St.apply_idUniq', 'Nix.St.run_idUniq', 'Nix.St.ids_pairwise_distinct', 'Nix.St.findGroupByAttribute_of_idUniq',
-            'Nix.St.lookup_by_id_finds_the_entity', 'Nix.St.lookup_by_name_finds_the_entity', 'Nix.St.lookups_by_name_and_id_agree', 'Nix.St.children_ids_distinct']
+            'Nix.St.lookup_by_id_finds_the_entity', 'Nix.St.lookup_by_name_finds_the_entity', 'Nix.St.lookups_by_name_and_id_agree', 'Nix.St.children_ids_distinct', 'Nix.St.grpFind_by_handle_needs_the_id_link']
 LEAN_MODULES = ['NixModel.Props.C03', 'NixModel.Props.C03Inv', 'NixModel.Props.C03Schema', 'NixModel.Proofs.Roles', 'NixModel.Proofs.RolesLookup', 'NixModel.Proofs.RolesOps', 'NixModel.Proofs.RolesHistory', 'NixModel.Proofs.IdUniq', 'NixModel.Props.C03Ids']
 RULE = ('random create / delete / re-create histories over every container kind (blocks, nested sections, nested sources, data arrays, data frames, '
         'tags, multi-tags, groups, properties, features, tag references, group members, entity sources) with an adversarial name pool (UUID-shaped, '
@@ -75,12 +75,74 @@ def feature_case(rng):
         w.emit('xcheck R %s' % h.slot); w.emit('xfeat %s' % h.slot)
     return w.lines
 
+def prefix_names_case(rng):
+    """names of which one is a proper prefix of another ('spikes' / 'spikes sorted', 'raw' / 'raw ' with a trailing blank), the LONGER
+    one added first, in every container that is searched by name through an attribute scan or a link name: the members of a group,
+    the references of a tag, the sources of an entity, the children of a block"""
+    w = World(rng, names=PLAIN)
+    w.open('ow')
+    b = w.mk('B', None, name='b')
+    pairs = [('spikes sorted', 'spikes'), ('raw ', 'raw'), ('abc', 'ab'), ('x.y.z', 'x.y')]
+    rng.shuffle(pairs)
+    names = [n for p in pairs[:3] for n in p]          # longer before shorter
+    ents = {k: [w.mk(k, b, name=n, extra=([3] if k == 'A' else None)) for n in names] for k in ('A', 'D', 'T', 'O')}
+    g = w.mk('G', b, name='grp'); t = w.mk('T', b, name='tag'); h = w.mk('A', b, name='holder', extra=[3])
+    for e in ents['A']:
+        w.emit('link mA %s handle %s' % (g.slot, e.slot)); w.emit('link ref %s handle %s' % (t.slot, e.slot))
+    for e in ents['D']: w.emit('link mD %s handle %s' % (g.slot, e.slot))
+    for e in ents['T']: w.emit('link mT %s handle %s' % (g.slot, e.slot))
+    for e in ents['O']: w.emit('link src %s handle %s' % (h.slot, e.slot))
+    def look():
+        for rel in ('mA', 'mD', 'mT'): w.emit('xlinks %s %s' % (rel, g.slot))
+        w.emit('xlinks ref %s' % t.slot); w.emit('xlinks src %s' % h.slot)
+        for k in ('A', 'D', 'T', 'O'): w.emit('xcheck %s %s' % (k, b.slot))
+    look()
+    # remove the shorter name through the group BY NAME: the longer one must stay
+    w.emit('unlink mA %s name %s' % (g.slot, S(names[1]))); w.emit('xlinks mA %s' % g.slot)
+    w.reopen(rng.choice(['ro', 'rw']))
+    look()
+    return w.lines
+
+def twin_blocks_case(rng):
+    """two blocks with the same names inside: an entity of the OTHER block named like a linked one is not linked — asked by handle"""
+    w = World(rng, names=PLAIN)
+    w.open('ow')
+    bs = [w.mk('B', None, name='rec1'), w.mk('B', None, name='rec2')]
+    kit = []
+    for b in bs:
+        e = {'A': [w.mk('A', b, name=n, extra=[3]) for n in ('x', 'y')], 'D': [w.mk('D', b, name='frame')], 'T': [w.mk('T', b, name='t')],
+             'O': [w.mk('O', b, name='src')], 'G': [w.mk('G', b, name='g')]}
+        e['M'] = [w.mk('M', b, name='m', extra=e['A'][0])]
+        kit.append(e)
+    a, o = kit
+    w.emit('link ref %s handle %s' % (a['T'][0].slot, a['A'][0].slot)); w.emit('link ref %s handle %s' % (a['M'][0].slot, a['A'][1].slot))
+    for rel, k in (('mA', 'A'), ('mD', 'D'), ('mT', 'T'), ('mM', 'M')):
+        w.emit('link %s %s handle %s' % (rel, a['G'][0].slot, a[k][0].slot))
+    for holder in (a['A'][0], a['T'][0], a['G'][0]):
+        w.emit('link src %s handle %s' % (holder.slot, a['O'][0].slot))
+    def ask():
+        w.emit('haslinkh ref %s handle %s linked' % (a['T'][0].slot, a['A'][0].slot)); w.emit('haslinkh ref %s handle %s foreign' % (a['T'][0].slot, o['A'][0].slot))
+        w.emit('haslinkh ref %s handle %s foreign' % (a['T'][0].slot, a['A'][1].slot))
+        w.emit('haslinkh ref %s handle %s linked' % (a['M'][0].slot, a['A'][1].slot)); w.emit('haslinkh ref %s handle %s foreign' % (a['M'][0].slot, o['A'][1].slot))
+        for rel, k in (('mA', 'A'), ('mD', 'D'), ('mT', 'T'), ('mM', 'M')):
+            w.emit('haslinkh %s %s handle %s linked' % (rel, a['G'][0].slot, a[k][0].slot)); w.emit('haslinkh %s %s handle %s foreign' % (rel, a['G'][0].slot, o[k][0].slot))
+        for holder in (a['A'][0], a['T'][0], a['G'][0]):
+            w.emit('haslinkh src %s handle %s linked' % (holder.slot, a['O'][0].slot)); w.emit('haslinkh src %s handle %s foreign' % (holder.slot, o['O'][0].slot))
+        for k in ('A', 'D', 'T', 'M', 'G', 'O'):
+            w.emit('has %s %s handle %s' % (k, bs[0].slot, a[k][0].slot)); w.emit('has %s %s handle %s' % (k, bs[0].slot, o[k][0].slot))
+    ask()
+    w.reopen('rw')
+    ask()
+    return w.lines
+
 def cases(tier, seed, rng):
     from vlib.runner import Case
     n = 60 if tier == 'quick' else 1500
     out = [Case(history(rng, tier, k % 3 != 0), 'gen:names' + ('-uuid' if k % 3 != 0 else '')) for k in range(n)]
     out += [Case(source_name_case(rng), 'gen:pattern-like-source-names') for _ in range(4 if tier == 'quick' else 60)]
     out += [Case(feature_case(rng), 'gen:features-by-data-array') for _ in range(8 if tier == 'quick' else 150)]
+    out += [Case(prefix_names_case(rng), 'gen:prefix-names') for _ in range(4 if tier == 'quick' else 60)]
+    out += [Case(twin_blocks_case(rng), 'gen:twin-blocks') for _ in range(2 if tier == 'quick' else 30)]
     return out
 
 def nontrivial(case, tags):
